@@ -110,8 +110,10 @@ def common(c):
     if res.ok:
         def corrupt(lines):
             want = {"C14": lambda e: e["res"]["code"] != 0 and e["res"]["codespace"] == "sdk" and e["res"]["code"] == 4,
-                    "C16": lambda e: e["tx"].get("dup") == "indexed",
-                    }.get(pid, lambda e: e["res"]["code"] == 0)
+                    # (an event the specification judges exactly: the duplicate was really refused as one / a
+                    #  successful SEND - for other message kinds this module only judges the fee floor)
+                    "C16": lambda e: e["tx"].get("dup") == "indexed" and e["res"]["codespace"] == "auth" and e["res"]["code"] == 6,
+                    }.get(pid, lambda e: e["res"]["code"] == 0 and e["tx"].get("kind") == "send")
             for i, l in enumerate(lines):
                 e = json.loads(l)
                 if e.get("ev") == "DeliverTx" and i > 20 and want(e):
